@@ -1153,6 +1153,9 @@ HttpStateData::persistentConnStatus() const
             return COMPLETE_NONPERSISTENT_MSG; // disable pconns
     }
 
+    if (payloadTruncated > 0) // dropped bytes that followed a bodiless reply
+        return COMPLETE_NONPERSISTENT_MSG; // disable pconns
+
     /** \par
      * If there is no message body or we got it all, we can be persistent */
     return statusIfComplete();
@@ -1390,8 +1393,10 @@ HttpStateData::truncateVirginBody()
 
     HttpReply *vrep = virginReply();
     int64_t clen = -1;
-    if (!vrep->expectingBody(request->method, clen) || clen < 0)
-        return; // no body or a body of unknown size, including chunked
+    if (!vrep->expectingBody(request->method, clen))
+        clen = 0; // bodiless reply: bytes received after its header are not a part of it
+    else if (clen < 0)
+        return; // a body of unknown size, including chunked
 
     if (payloadSeen - payloadTruncated <= clen)
         return; // we did not read too much or already took care of the extras
